@@ -37,8 +37,10 @@ def loop_carried(prog, f):
     n_loops = 0
     for lp in [n for n in walk_no_nested(f.node) if isinstance(n, ast.For) and isinstance(n.target, ast.Name) and isinstance(n.iter, ast.Call)
                and norm(n.iter.func) == 'range' and len(n.iter.args) == 1]:
-        n_loops += 1
         x = lp.target.id
+        if not any(isinstance(n, ast.Name) and n.id == x and isinstance(n.ctx, ast.Load) for b_ in lp.body for n in ast.walk(b_)):
+            continue      # the variable is a repetition counter, not a node: every round is the same whole-array step
+        n_loops += 1
         inner_alloc = {t.id for s in ast.walk(lp) if isinstance(s, ast.Assign) for t in s.targets if isinstance(t, ast.Name)}
         writes = []
         for s in ast.walk(lp):
@@ -75,6 +77,53 @@ def loop_carried(prog, f):
     return out, n_loops
 
 
+def pair_roles(rep, f):
+    """P: a loop nest over unordered pairs (`for i ...: for j in range(i + 1, n)`) computes one value per pair and mirrors it;
+    renumbering can exchange the roles of the two nodes, so whatever is extracted for the first node must be extracted in the same
+    way for the second.  Instances: assignments `x = E` in the inner body whose right-hand side mentions exactly one of the two
+    loop variables and otherwise only names that are not assigned inside the loop nest; the multiset of E[i := .] must equal
+    that of E[j := .].  Returns the number of such assignments."""
+    cnt = 0
+    for outer in [n for n in walk_no_nested(f.node) if isinstance(n, ast.For) and isinstance(n.target, ast.Name)]:
+        i = outer.target.id
+        for inner in [n for n in outer.body if isinstance(n, ast.For) and isinstance(n.target, ast.Name)]:
+            j = inner.target.id
+            it = inner.iter
+            if not (isinstance(it, ast.Call) and norm(it.func) == 'range' and len(it.args) == 2 and norm(it.args[0]).replace(' ', '') in (i + '+1', '1+' + i)):
+                continue
+            assigned = {t.id for s in ast.walk(outer) for t in ast.walk(s) if isinstance(t, ast.Name) and isinstance(t.ctx, ast.Store)}
+            roles = {i: [], j: []}
+            for s in ast.walk(inner):
+                if not (isinstance(s, ast.Assign) and len(s.targets) == 1 and isinstance(s.targets[0], ast.Name)):
+                    continue
+                names = {x.id for x in ast.walk(s.value) if isinstance(x, ast.Name)}
+                mine = names & {i, j}
+                if len(mine) != 1 or (names - {i, j}) & assigned:
+                    continue
+                v = mine.pop()
+
+                class _R(ast.NodeTransformer):
+                    def visit_Name(self, n):
+                        return ast.copy_location(ast.Name(id='_node_', ctx=n.ctx), n) if n.id == v else n
+                import copy
+                roles[v].append((norm(_R().visit(copy.deepcopy(s.value))), s))
+            if not roles[i] and not roles[j]:
+                continue
+            cnt += len(roles[i]) + len(roles[j])
+            a = sorted(t for t, _ in roles[i])
+            b = sorted(t for t, _ in roles[j])
+            bad = None
+            if a != b:
+                from collections import Counter
+                ca, cb = Counter(a), Counter(b)
+                bad = [s for t, s in roles[j] if t in (cb - ca)] + [s for t, s in roles[i] if t in (ca - cb)]
+            rep.ob('P.unordered-pair-roles-symmetric', f, 'for %s ...: for %s in %s: %s | %s' % (i, j, norm(it), a, b), a == b,
+                   'the loop visits each unordered pair once and the result is mirrored, but the two nodes are not treated alike: '
+                   'extracted for `%s`: %s; for `%s`: %s (see line %s) -- the value then depends on which node has the smaller number' % (
+                       i, a, j, b, ', '.join(str(s.lineno) for s in (bad or []))), line=(bad[0].lineno if bad else inner.lineno))
+    return cnt
+
+
 def check(prog, rep):
     rep.explanation = (
         'Three shape-level necessary conditions of permutation equivariance, evaluated on every deterministic routine of the eight anchored '
@@ -83,7 +132,7 @@ def check(prog, rep):
         'degenerate eigenspace; (I) no integer literal singles out a node position of a connection matrix. Equivariance itself (tie-breaking '
         'in argmax/argmin, accumulated rounding, every algebraic identity) is not decided.')
     rep.assume('seed-accepting (randomised) routines are outside this property')
-    n_loops = n_funcs = n_sub = 0
+    n_loops = n_funcs = n_sub = n_roles = 0
     for mn in MODS:
         m = prog.module('bct.algorithms.' + mn)
         for f in sorted(m.functions.values(), key=lambda z: z.node.lineno):
@@ -93,6 +142,7 @@ def check(prog, rep):
             if 'seed' in top.all_params:
                 continue
             n_funcs += 1
+            n_roles += pair_roles(rep, f)
             cands, nl = loop_carried(prog, f)
             n_loops += nl
             for (lp, arr, wt, rd) in cands:
@@ -172,6 +222,9 @@ def check(prog, rep):
     rep.ob('I.no-literal-node-index', ('bct/algorithms', '8 anchored modules'), '%d subscripts of connection-matrix parameters inspected' % n_sub, True, '', line=0)
     rep.ob('L.no-cross-node-flow-dependence', ('bct/algorithms', '8 anchored modules'), '%d node loops in %d deterministic routines inspected' % (n_loops, n_funcs), True, '', line=0)
     rep.stat('node_loops_inspected', n_loops)
+    rep.stat('pair_role_assignments', n_roles)
+    if n_roles < 4:
+        rep.error('only %d single-role assignments in unordered-pair loops found (floor 4)' % n_roles)
     rep.stat('deterministic_routines', n_funcs)
     rep.stat('matrix_subscripts_inspected', n_sub)
     if n_loops < 40:
@@ -274,5 +327,8 @@ def variants(root):
         V('flow_coef: literal node', 'break', 'bct/algorithms/centrality.py', 'def flow_coef_bd(CIJ):', 'def flow_coef_bd(CIJ):\n    _first = CIJ[0, 1]', 'I.', None),
         V('neutral: per-node row write', 'neutral', 'bct/algorithms/distance.py', '        D[i, :], _ = breadth(CIJ, i)\n', '        row, _ = breadth(CIJ, i)\n        D[i, :] = row\n', scope='def breadthdist('),
         V('neutral: accumulate with +=', 'neutral', 'bct/algorithms/centrality.py', '            BC[w] += DP[w]', '            BC[w] += DP[w] + 0', scope='def betweenness_wei('),
+        V('matching_ind: second node read along the other axis', 'break', 'bct/algorithms/similarity.py', 'c2o = CIJ[j, :]', 'c2o = CIJ[:, j]', 'P.unordered', 'matching_ind', scope='def matching_ind('),
+        V('matching_ind: first node read along the other axis', 'break', 'bct/algorithms/similarity.py', 'c1i = CIJ[:, i]', 'c1i = CIJ[i, :]', 'P.unordered', 'matching_ind', scope='def matching_ind('),
+        V('neutral: matching_ind rows via take', 'neutral', 'bct/algorithms/similarity.py', '            c1o = CIJ[i, :]\n            c2o = CIJ[j, :]', '            c1o = CIJ[i]\n            c2o = CIJ[j]', scope='def matching_ind('),
     ]
     return out
